@@ -124,8 +124,8 @@ func schedRevalidateAfterRelock(c *Ctx) *RuleResult {
 		var lookup *ast.AssignStmt
 		ast.Inspect(u.Decl.Body, func(n ast.Node) bool {
 			if as, ok := n.(*ast.AssignStmt); ok && len(as.Rhs) == 1 && len(as.Lhs) == 2 {
-				if ix, ok := ast.Unparen(as.Rhs[0]).(*ast.IndexExpr); ok && fieldOf(info, ix.X) == onm {
-					lookup = as
+				if ix, ok := ast.Unparen(as.Rhs[0]).(*ast.IndexExpr); ok && fieldOf(info, ix.X) == onm && lookup == nil {
+					lookup = as // the first lookup: the value carried across the unlocked section
 				}
 			}
 			return true
